@@ -12,7 +12,7 @@ from vf.sim.model import Model, atom_target, expand_out
 
 PROP_ID = 'C28'
 LEVEL = 'exploration'
-BUDGET = {'quick': 420, 'thorough': 11000}
+BUDGET = {'quick': 352, 'thorough': 11000}
 MANIFEST = {
     'engine': 'S',
     'technique': 'stateful PBT on the stepped scheduler: generated group '
@@ -442,17 +442,35 @@ def _oracle(sc: SCase, spec, final_pool, paused_end, crashed, viol,
             return any(_tg.idx < i < upto and out in new
                        for (i, new) in pms.get(uid, ()))
 
-        def expr_true(m, upto, _gset=gset):
+        def stale(uid, out, _tg=tg):
+            """custom output that a retained (not removed) group-start
+            member still carried from an earlier job at the command"""
+            b = _tg.before.get(uid)
+            return (_tg.start[uid] and b is not None
+                    and b['status'] not in LIVE and out in b['outputs']
+                    and out in spec.get('custom', {}).get(
+                        uid.split('/', 1)[1], {}))
+
+        def expr_true(m, upto, _gset=gset, fresh_only=False):
             t, p = inst_of(m)
 
             def truth(u, q, o):
                 uid = f'{sc.drv.to_str.get(q)}/{u}'
                 if uid not in _gset:
                     return True
+                if fresh_only and stale(uid, o):
+                    return False
                 return completed(uid, o, upto)
 
             return all(eval_tree(tr, p, model, truth)
                        for tr in model.trees_at(t, p))
+
+        def is_off(x, _tg=tg, _fl=fl):
+            bx = _tg.before.get(x)
+            return bx is not None and bool(
+                (_fl and _fl != ['none']
+                 and not in_flow(_fl, bx['flows'], _tg.seen_flows))
+                or (not _fl and not bx['flows']))
 
         for m in tg.group:
             b = tg.before.get(m)
@@ -486,12 +504,21 @@ def _oracle(sc: SCase, spec, final_pool, paused_end, crashed, viol,
             # an active member none of whose flows is the triggered one
             # (default flow = flows of the active members: only a no-flow
             # proxy can be outside it)
-            off_flow = b is not None and (
-                (fl and fl != ['none']
-                 and not in_flow(fl, b['flows'], tg.seen_flows))
-                or (not fl and not b['flows']))
+            off_flow = is_off(m)
             if off_flow:
                 classes.add('member:active-in-other-flow')
+            # ... or downstream (inside the group) of such a member that has
+            # in-group prerequisites itself: that one is not re-run in the
+            # triggered flow, so this one is not reached in it either
+            seen_up, todo = set(), [u for (u, _o) in tg.in_edges[m]]
+            while todo and not off_flow:
+                u = todo.pop()
+                if u in seen_up:
+                    continue
+                seen_up.add(u)
+                if is_off(u) and not tg.start[u]:
+                    off_flow = True
+                todo += [x for (x, _o) in tg.in_edges[u]]
             if start and live:
                 classes.add('role:live-start')
 
@@ -640,7 +667,29 @@ def _oracle(sc: SCase, spec, final_pool, paused_end, crashed, viol,
                         fin['held'] or fin['queued'] or fin['runahead']):
                     classes.add('in-group-child-blocked:held-queued-runahead')
                     continue
-                if fin is None:
+                orphan_msgs = sorted({
+                    o for (i, new) in pms.get(m, ()) if i > tg.idx
+                    for o in new})
+                if not expr_true(m, len(trace), fresh_only=True):
+                    # root cause apart: true only thanks to a custom output
+                    # re-emitted by a re-run group-start member whose
+                    # retained proxy already had it (no children spawned)
+                    sig = ('C28:member-not-run:parent-custom-output-'
+                           'already-complete-on-retained-proxy')
+                    where = ('not in the pool' if fin is None else
+                             f'in the pool as {fin["status"]} '
+                             f'sat={fin["sat"]}')
+                elif live and orphan_msgs:
+                    # root cause apart: the member was removed with a live
+                    # job; that job's messages were taken for the
+                    # re-spawned proxy (same submit number)
+                    sig = ('C28:member-not-run:'
+                           'completed-by-messages-of-orphaned-job')
+                    where = (('not in the pool' if fin is None else
+                              f'in the pool as {fin["status"]}')
+                             + f'; outputs processed for it since the '
+                             f'trigger without a launch: {orphan_msgs}')
+                elif fin is None:
                     sig = 'C28:member-not-run:not-in-pool'
                     where = 'not in the pool'
                     if off_flow:
